@@ -2083,6 +2083,9 @@ func marshalTuple(info TypeInfo, value interface{}) ([]byte, error) {
 		var buf []byte
 		for i, elem := range tuple.Elems {
 			field := rv.Field(i)
+			if !field.CanInterface() {
+				return nil, marshalErrorf("can not marshal tuple from struct %v: field %d is unexported", t, i)
+			}
 
 			if field.Kind() == reflect.Ptr && field.IsNil() {
 				buf = appendInt(buf, int32(-1))
@@ -2155,6 +2158,9 @@ func unmarshalTuple(info TypeInfo, data []byte, value interface{}) error {
 	tuple := info.(TupleTypeInfo)
 	switch v := value.(type) {
 	case []interface{}:
+		if len(v) < len(tuple.Elems) {
+			return unmarshalErrorf("can not unmarshal tuple into %d values, need %d", len(v), len(tuple.Elems))
+		}
 		for i, elem := range tuple.Elems {
 			// each element inside data is a [bytes]
 			var p []byte
@@ -2245,6 +2251,9 @@ func unmarshalTuple(info TypeInfo, data []byte, value interface{}) error {
 // type for the CQL type; any other destination is unmarshaled into directly,
 // so that every type supported by Unmarshal can be used.
 func unmarshalTupleElem(elem TypeInfo, p []byte, dst reflect.Value) error {
+	if !dst.CanSet() {
+		return unmarshalErrorf("can not unmarshal %s into %s: not settable (unexported field?)", elem, dst.Type())
+	}
 	if dst.Kind() != reflect.Interface {
 		if !dst.CanAddr() {
 			return unmarshalErrorf("can not unmarshal %s into unaddressable %s", elem, dst.Type())
